@@ -72,6 +72,8 @@ pub struct EnvL {
   pub behaviors: Vec<BehaviorSubject<Val, LSubject>>,
   pub hotc: Vec<Rc<RefCell<Vec<LSubscriber>>>>,
   pub groups: Arc<Mutex<GroupReg>>,
+  /// one shared observable VALUE per `share` node of the program, whichever root reaches it
+  pub shares: Mutex<std::collections::BTreeMap<usize, LBox>>,
 }
 
 /// Environment of one behaviour, thread-safe form.
@@ -82,6 +84,7 @@ pub struct EnvT {
   pub behaviors: Vec<BehaviorSubject<Val, TSubject>>,
   pub hotc: Vec<Arc<Mutex<Vec<TSubscriber>>>>,
   pub groups: Arc<Mutex<GroupReg>>,
+  pub shares: Mutex<std::collections::BTreeMap<usize, TBox>>,
 }
 
 /// numbering of the groups announced by group_by (the specification numbers the per-group subjects in creation order):
@@ -280,7 +283,7 @@ macro_rules! builder {
         "duc" => src(ast.s1).distinct_until_changed().box_it(),
         "dukc" => src(ast.s1).distinct_until_key_changed(move |v: &Val| keyf(a, v)).box_it(),
         "pairwise" => src(ast.s1).pairwise().map(|(x, y)| pair(x, y)).box_it(),
-        "buffer_count" => src(ast.s1).buffer_with_count(a as usize).map(Val::L).box_it(),
+        "buffer_count" => src(ast.s1).buffer_with_count(if a >= 1_000_000 { usize::MAX } else { a as usize }).map(Val::L).box_it(),
         "collect" if !ast.l.is_empty() => src(ast.s1).collect_into(ast.vals()).map(Val::L).box_it(),
         "collect" => src(ast.s1).collect::<Vec<Val>>().map(Val::L).box_it(),
         "take" => src(ast.s1).take(a as usize).box_it(),
@@ -320,6 +323,11 @@ macro_rules! builder {
           .$with_latest_from(src(ast.s2))
           .map(|(x, y)| pair(x, y))
           .box_it(),
+        "take_until" if env.prog[ast.s2 - 1].op == "publish" => {
+          // the notifier is a published observable used as a value (not through fork()): subscribing it must not connect it
+          let (a_, b_) = (src(ast.s1), src(env.prog[ast.s2 - 1].s1));
+          observable::defer(move || a_.clone().$take_until(b_.clone().publish::<$subject>())).box_it()
+        }
         "take_until" => src(ast.s1).$take_until(src(ast.s2)).box_it(),
         "skip_until" => src(ast.s1).$skip_until(src(ast.s2)).box_it(),
         "sample" => src(ast.s1).$sample(src(ast.s2)).box_it(),
@@ -371,7 +379,17 @@ macro_rules! builder {
             })
             .box_it()
         }
-        "share" => src(ast.s1).$share().box_it(),
+        "share" => {
+          let have = env.shares.lock().unwrap().get(&x).cloned();
+          match have {
+            Some(b) => b,
+            None => {
+              let b: $bx = src(ast.s1).$share().box_it();
+              env.shares.lock().unwrap().insert(x, b.clone());
+              b
+            }
+          }
+        }
         // ------------------------------------------------ scheduler-using operators and sources
         "delay" => {
           if b == 1 {
@@ -407,7 +425,8 @@ macro_rules! builder {
         }
         "buffer_time" => src(ast.s1).buffer_with_time(dur(a), VSched).map(Val::L).box_it(),
         "buffer_count_time" => src(ast.s1)
-          .buffer_with_count_and_time(a as usize, dur(b), VSched)
+          // a count of 1 000 000 in the catalogue stands for "no count limit": usize::MAX
+          .buffer_with_count_and_time(if a >= 1_000_000 { usize::MAX } else { a as usize }, dur(b), VSched)
           .map(Val::L)
           .box_it(),
         "interval" => {
